@@ -2,7 +2,7 @@
    were before the "fix:" commits of the work-C18 branch (replayed on the real
    code: corpus/C09/defects.txt). *)
 From Coq Require Import List ZArith Bool.
-From RtoscV Require Import Ports.NameModel Ports.PathModel Ports.WalkModel.
+From RtoscV Require Import Match.PatSpec Match.MatchModel Ports.NameModel Ports.PathModel Ports.WalkModel.
 Import ListNotations.
 Local Open Scope Z_scope.
 
